@@ -62,126 +62,196 @@ def IsRequest : Msg → Prop
   | .echoRequest .. | .featuresRequest _ | .getConfigRequest _ | .barrierRequest _ | .statsRequest .. | .queueGetConfigRequest .. => True
   | _ => False
 
-/-- the answer OpenFlow 1.0 specifies to statistics request `req` with xid `x` in state `s` -/
-def SpecStats (s : SwitchState) (x : Nat) : StatsReq → Reply → Prop
-  | .desc, r => r = .statsReply x 0 .desc
-  | .flow _ tid _, r => ∃ l, r = .statsReply x 1 (.flows l) ∧ l.Sublist s.table ∧ (tid ≠ 255 ∧ tid ≠ 0 → l = [])
-  | .aggregate _ tid _, r => ∃ n, r = .statsReply x 2 (.aggregate n) ∧ n ≤ s.table.length ∧ (tid ≠ 255 ∧ tid ≠ 0 → n = 0)
-  | .table, r => r = .statsReply x 3 (.table s.maxEntries s.table.length s.lookupCount s.matchedCount)
-  | .port p, r => r = .statsReply x 4 (.ports (if p = 65535 then s.portStats else if s.portStats.contains p then [p] else []))
-  | .queue p q, r =>
-    if p ≠ 65532 ∧ knownPort s p = false then r = .error x 5 0          -- QUEUE_OP_FAILED / BAD_PORT
-    else if q = 4294967295 then r = .statsReply x 5 .queues               -- no queues: empty list
-    else r = .error x 5 1                                                  -- QUEUE_OP_FAILED / BAD_QUEUE
-  | .other _, r => r = .error x 1 2                                        -- BAD_REQUEST / BAD_STAT
+/-- the entries a flow / aggregate statistics request selects, from the text of the standard: table id 0 or 0xff (the
+switch has one table), the request's match covers the entry's match, and — unless out_port is OFPP_NONE — the entry has
+an output action to out_port -/
+def exactSelect (s : SwitchState) (mk : MKey) (tid op : Nat) : List Flow :=
+  if tid ≠ 255 ∧ tid ≠ 0 then []
+  else s.table.filter fun e => portMatches (if op = 65535 then none else some op) e && subsumes mk e.mkey
+
+theorem statsSelect_exact (s : SwitchState) (mk : MKey) (tid op : Nat) : statsSelect s mk tid op = exactSelect s mk tid op := rfl
+
+/-- the answer OpenFlow 1.0 specifies to statistics request `req` with xid `x` in state `s` (the whole group of
+messages): list bodies may come in several parts (OFPSF_REPLY_MORE on all but the last), every part fitting into one
+message; their concatenation is exactly the selected entries with their current counters -/
+def SpecStats (s : SwitchState) (x : Nat) : StatsReq → List Reply → Prop
+  | .desc, g => g = [.statsReply x 0 false .desc]
+  | .flow mk tid op, g =>
+    ∃ ls : List (List Flow), Multipart x 1 g (ls.map .flows) ∧ ls.flatten = exactSelect s mk tid op ∧
+      ∀ l ∈ ls, (l.map flowEntryLen).sum ≤ 65523
+  | .aggregate mk tid op, g =>
+    g = [.statsReply x 2 false (.aggregate ((exactSelect s mk tid op).map (·.packets)).sum ((exactSelect s mk tid op).map (·.bytes)).sum
+                                  (exactSelect s mk tid op).length)]
+  | .table, g => g = [.statsReply x 3 false (.table s.maxEntries s.table.length s.lookupCount s.matchedCount)]
+  | .port p, g =>
+    ∃ ls : List (List PortCtr), Multipart x 4 g (ls.map .ports) ∧
+      ls.flatten = (if p = 65535 then s.portStats else s.portStats.filter (·.no == p)) ∧
+      ∀ l ∈ ls, (l.map portEntryLen).sum ≤ 65523
+  | .queue p q, g =>
+    if p ≠ 65532 ∧ knownPort s p = false then g = [.error x 5 0]          -- QUEUE_OP_FAILED / BAD_PORT
+    else if q = 4294967295 then g = [.statsReply x 5 false .queues]        -- no queues: empty list
+    else g = [.error x 5 1]                                                 -- QUEUE_OP_FAILED / BAD_QUEUE
+  | .other _, g => g = [.error x 1 2]                                       -- BAD_REQUEST / BAD_STAT
 
 /-- the answer the specification requires to request `m` in state `s` -/
-def SpecReply (s : SwitchState) : Msg → Reply → Prop
-  | .echoRequest x b, r => r = .echoReply x b
-  | .featuresRequest x, r => r = .featuresReply x s.dpid s.maxBuffers 1 s.caps s.actionBits s.ports
-  | .getConfigRequest x, r => r = .getConfigReply x s.configFlags s.missSendLen
-  | .barrierRequest x, r => r = .barrierReply x
-  | .queueGetConfigRequest x p, r => if knownPort s p = true then r = .queueGetConfigReply x p else r = .error x 5 0
-  | .statsRequest x req, r => SpecStats s x req r
+def SpecReply (s : SwitchState) : Msg → List Reply → Prop
+  | .echoRequest x b, g => g = [.echoReply x b]
+  | .featuresRequest x, g => g = [.featuresReply x s.dpid s.maxBuffers 1 s.caps s.actionBits s.ports]
+  | .getConfigRequest x, g => g = [.getConfigReply x s.configFlags s.missSendLen]
+  | .barrierRequest x, g => g = [.barrierReply x]
+  | .queueGetConfigRequest x p, g => if knownPort s p = true then g = [.queueGetConfigReply x p] else g = [.error x 5 0]
+  | .statsRequest x req, g => SpecStats s x req g
   | _, _ => False
 
+/-- OFPSF_REPLY_MORE is set -/
+def isMorePart : Reply → Bool
+  | .statsReply _ _ true _ => true
+  | _ => false
+
+/-- a complete answer: one message, or several parts of which exactly the last has no REPLY_MORE -/
+def Complete (g : List Reply) : Prop := ∃ rs r, g = rs ++ [r] ∧ isMorePart r = false ∧ ∀ q ∈ rs, isMorePart q = true
+
+theorem complete_single (r : Reply) (h : isMorePart r = false) : Complete [r] := ⟨[], r, rfl, h, by simp⟩
+
+theorem multipart_complete {x t : Nat} {g : List Reply} {bs : List StatsBody} (h : Multipart x t g bs) : Complete g := by
+  induction h with
+  | last b => exact complete_single _ rfl
+  | more b _ ih =>
+    obtain ⟨rs, r, e, h1, h2⟩ := ih
+    refine ⟨_ :: rs, r, by rw [e]; rfl, h1, ?_⟩
+    intro q hq
+    rcases List.mem_cons.mp hq with rfl | hq'
+    · rfl
+    · exact h2 q hq'
+
+/-- what every answer to a request is: at least one message, each carrying the xid `x` and none asynchronous, complete -/
+def AnswerTo (x : Nat) (g : List Reply) : Prop :=
+  g ≠ [] ∧ (∀ r ∈ g, r.xid? = some x ∧ r.isAsync = false) ∧ Complete g
+
+theorem answerTo_single {x : Nat} (r : Reply) (h1 : r.xid? = some x) (h2 : r.isAsync = false) (h3 : isMorePart r = false) :
+    AnswerTo x [r] :=
+  ⟨by simp, by intro q hq; simp only [List.mem_singleton] at hq; subst hq; exact ⟨h1, h2⟩, complete_single r h3⟩
+
+theorem multipart_answer {x t : Nat} {g : List Reply} {bs : List StatsBody} (h : Multipart x t g bs) : AnswerTo x g :=
+  ⟨h.all.1, h.all.2, multipart_complete h⟩
+
 open Generated.SwitchDispatch in
-theorem stats_spec (s : SwitchState) (x : Nat) (req : StatsReq) (hwf : ∀ t, req = .other t → 6 ≤ t) :
-    ∃ r, rxStats s x req = .ok (s, [r]) ∧ r.xid? = some x ∧ r.isAsync = false ∧ SpecStats s x req r := by
+theorem stats_spec (s : SwitchState) (x : Nat) (req : StatsReq) (hwf : ∀ t, req = .other t → 6 ≤ t)
+    (hfit : (∃ mk tid op, req = .flow mk tid op) → FlowsFit s) :
+    ∃ g, rxStats s x req = .ok (s, g) ∧ AnswerTo x g ∧ SpecStats s x req g := by
   cases req with
-  | desc => exact ⟨_, rfl, rfl, rfl, rfl⟩
-  | table => exact ⟨_, rfl, rfl, rfl, rfl⟩
+  | desc => exact ⟨_, rfl, answerTo_single _ rfl rfl rfl, rfl⟩
+  | table => exact ⟨_, rfl, answerTo_single _ rfl rfl rfl, rfl⟩
+  | aggregate mk tid op => exact ⟨_, rfl, answerTo_single _ rfl rfl rfl, rfl⟩
   | flow mk tid op =>
     have hl : statsTable.lookup (StatsReq.flow mk tid op).stype = some .flow := rfl
-    unfold rxStats; rw [hl]; simp only [runStats]
-    by_cases hc : tid ≠ TABLE_ALL ∧ tid ≠ 0
-    · rw [if_pos hc]
-      exact ⟨_, rfl, rfl, rfl, [], rfl, List.nil_sublist _, fun _ => rfl⟩
-    · rw [if_neg hc]
-      exact ⟨_, rfl, rfl, rfl, _, rfl, List.filter_sublist, fun h => absurd h hc⟩
-  | aggregate mk tid op =>
-    have hl : statsTable.lookup (StatsReq.aggregate mk tid op).stype = some .aggregate := rfl
-    unfold rxStats; rw [hl]; simp only [runStats]
-    by_cases hc : tid ≠ TABLE_ALL ∧ tid ≠ 0
-    · rw [if_pos hc]
-      exact ⟨_, rfl, rfl, rfl, 0, rfl, Nat.zero_le _, fun _ => rfl⟩
-    · rw [if_neg hc]
-      exact ⟨_, rfl, rfl, rfl, _, rfl, List.length_filter_le _ _, fun h => absurd h hc⟩
+    have hsel : ∀ e ∈ statsSelect s mk tid op, flowEntryLen e ≤ partLimit := by
+      intro e he
+      unfold statsSelect at he
+      split at he
+      · cases he
+      · exact hfit ⟨mk, tid, op, rfl⟩ e (List.mem_filter.mp he).1
+    have hall : (bodyParts (.flows (statsSelect s mk tid op))).all (fun b => decide (bodyLen b ≤ partLimit)) = true := by
+      simp only [bodyParts, List.all_eq_true, List.mem_map, decide_eq_true_eq]
+      rintro b ⟨l, hl', rfl⟩
+      exact splitParts_fit flowEntryLen _ hsel l hl'
+    have hne : bodyParts (.flows (statsSelect s mk tid op)) ≠ [] := by
+      simp only [bodyParts, ne_eq, List.map_eq_nil_iff]; exact splitParts_ne _ _
+    have hm := markParts_multipart x 1 hne
+    unfold rxStats; rw [hl]; simp only [runStats]; rw [if_pos hall]
+    refine ⟨_, rfl, ?_, splitParts flowEntryLen (statsSelect s mk tid op), ?_, ?_, ?_⟩
+    · exact multipart_answer hm
+    · simp only [bodyParts] at hm; exact hm
+    · rw [splitParts_flatten]; rfl
+    · exact splitParts_fit flowEntryLen _ hsel
   | port p =>
     have hl : statsTable.lookup (StatsReq.port p).stype = some .port := rfl
+    have key : ∀ (l : List PortCtr), ∃ g, (if (bodyParts (.ports l)).all (fun b => decide (bodyLen b ≤ partLimit)) = true
+          then (Except.ok (s, [] ++ markParts x (StatsReq.port p).stype (bodyParts (.ports l))) : Res) else .error .struct) = .ok (s, g) ∧
+        AnswerTo x g ∧ ∃ ls : List (List PortCtr), Multipart x 4 g (ls.map .ports) ∧ ls.flatten = l ∧ ∀ q ∈ ls, (q.map portEntryLen).sum ≤ 65523 := by
+      intro l
+      have hsel : ∀ e ∈ l, portEntryLen e ≤ partLimit := by intro e _; show (104 : Nat) ≤ 65523; decide
+      have hall : (bodyParts (.ports l)).all (fun b => decide (bodyLen b ≤ partLimit)) = true := by
+        simp only [bodyParts, List.all_eq_true, List.mem_map, decide_eq_true_eq]
+        rintro b ⟨q, hq, rfl⟩
+        exact splitParts_fit portEntryLen _ hsel q hq
+      have hne : bodyParts (.ports l) ≠ [] := by
+        simp only [bodyParts, ne_eq, List.map_eq_nil_iff]; exact splitParts_ne _ _
+      have hm := markParts_multipart x 4 hne
+      rw [if_pos hall]
+      refine ⟨_, rfl, ?_, splitParts portEntryLen l, ?_, splitParts_flatten _ _, splitParts_fit portEntryLen _ hsel⟩
+      · exact multipart_answer hm
+      · simp only [bodyParts] at hm; exact hm
     unfold rxStats; rw [hl]; simp only [runStats]
     by_cases hc : p = OFPP_NONE
     · rw [if_pos hc]
+      obtain ⟨g, h1, h2, ls, h3, h4, h5⟩ := key s.portStats
       have hc' : p = 65535 := hc
-      refine ⟨_, rfl, rfl, rfl, ?_⟩
-      simp only [SpecStats]; rw [if_pos hc']; rfl
+      exact ⟨g, h1, h2, ls, h3, by rw [h4, if_pos hc'], h5⟩
     · rw [if_neg hc]
+      obtain ⟨g, h1, h2, ls, h3, h4, h5⟩ := key (s.portStats.filter (·.no == p))
       have hc' : ¬ p = 65535 := hc
-      by_cases hd : (!s.portStats.contains p) = true
-      · rw [if_pos hd]
-        have hd' : s.portStats.contains p = false := by
-          cases hh : s.portStats.contains p with
-          | false => rfl
-          | true => rw [hh] at hd; cases hd
-        refine ⟨_, rfl, rfl, rfl, ?_⟩
-        simp only [SpecStats]; rw [if_neg hc', hd']; rfl
-      · rw [if_neg hd]
-        have hd' : s.portStats.contains p = true := by
-          cases hh : s.portStats.contains p with
-          | true => rfl
-          | false => rw [hh] at hd; exact absurd rfl hd
-        refine ⟨_, rfl, rfl, rfl, ?_⟩
-        simp only [SpecStats]; rw [if_neg hc', hd']; rfl
+      exact ⟨g, h1, h2, ls, h3, by rw [h4, if_neg hc'], h5⟩
   | queue p q =>
     have hl : statsTable.lookup (StatsReq.queue p q).stype = some .queue := rfl
     unfold rxStats; rw [hl]; simp only [runStats]
     by_cases hc : p ≠ OFPP_ALL ∧ (!knownPort s p) = true
     · rw [if_pos hc]
       have hc' : p ≠ 65532 ∧ knownPort s p = false := ⟨hc.1, by simpa using hc.2⟩
-      refine ⟨_, rfl, rfl, rfl, ?_⟩
+      refine ⟨_, rfl, answerTo_single _ rfl rfl rfl, ?_⟩
       simp only [SpecStats]; rw [if_pos hc']; rfl
     · rw [if_neg hc]
       have hc' : ¬ (p ≠ 65532 ∧ knownPort s p = false) := fun h => hc ⟨h.1, by simpa using h.2⟩
       by_cases hd : q = OFPQ_ALL
       · rw [if_pos hd]
         have hd' : q = 4294967295 := hd
-        refine ⟨_, rfl, rfl, rfl, ?_⟩
+        refine ⟨_, rfl, answerTo_single _ rfl rfl rfl, ?_⟩
         simp only [SpecStats]; rw [if_neg hc', if_pos hd']; rfl
       · rw [if_neg hd]
         have hd' : ¬ q = 4294967295 := hd
-        refine ⟨_, rfl, rfl, rfl, ?_⟩
+        refine ⟨_, rfl, answerTo_single _ rfl rfl rfl, ?_⟩
         simp only [SpecStats]; rw [if_neg hc', if_neg hd']; rfl
   | other t =>
     have := statsTable_none (hwf t rfl)
     simp only [rxStats, StatsReq.stype, this]
-    exact ⟨_, rfl, rfl, rfl, rfl⟩
+    exact ⟨_, rfl, answerTo_single _ rfl rfl rfl, rfl⟩
 
 /-- **one_reply**: each echo, features, get-config, barrier, statistics (every type) and queue-get-config request
-yields exactly one message, not an asynchronous one, carrying the request's xid; it is the reply (with the data of the
-current state) or the error the specification names; and the request changes nothing in the switch. -/
-theorem one_reply (s : SwitchState) (m : Msg) (hk : IsRequest m) (hwf : m.WF) :
-    ∃ r, rxMessage s m = .ok (s, [r]) ∧ r.xid? = some m.xid ∧ r.isAsync = false ∧ SpecReply s m r := by
+yields exactly one answer: at least one message, none asynchronous, each carrying the request's xid, complete (a list
+of statistics entries too long for one message comes in several parts, all but the last flagged OFPSF_REPLY_MORE); it
+is the reply (with the data and counters of the current state) or the error the specification names; and the request
+changes nothing in the switch.  `FlowsFit`: every installed flow can be encoded in a reply at all (its action list is
+shorter than 65435 bytes) — without it `ofp_stats_reply.pack` raises, see `oversize_entry_fails`. -/
+theorem one_reply (s : SwitchState) (m : Msg) (hk : IsRequest m) (hwf : m.WF) (hfit : FlowsFit s) :
+    ∃ g, rxMessage s m = .ok (s, g) ∧ AnswerTo m.xid g ∧ SpecReply s m g := by
   cases m with
-  | echoRequest x b => exact ⟨_, rfl, rfl, rfl, rfl⟩
-  | featuresRequest x => exact ⟨_, rfl, rfl, rfl, rfl⟩
-  | getConfigRequest x => exact ⟨_, rfl, rfl, rfl, rfl⟩
-  | barrierRequest x => exact ⟨_, rfl, rfl, rfl, rfl⟩
+  | echoRequest x b => exact ⟨_, rfl, answerTo_single _ rfl rfl rfl, rfl⟩
+  | featuresRequest x => exact ⟨_, rfl, answerTo_single _ rfl rfl rfl, rfl⟩
+  | getConfigRequest x => exact ⟨_, rfl, answerTo_single _ rfl rfl rfl, rfl⟩
+  | barrierRequest x => exact ⟨_, rfl, answerTo_single _ rfl rfl rfl, rfl⟩
   | queueGetConfigRequest x p =>
     have e : rxMessage s (.queueGetConfigRequest x p) =
         (if (!knownPort s p) = true then .ok (s, [sendError x Generated.SwitchDispatch.OFPET_QUEUE_OP_FAILED Generated.SwitchDispatch.OFPQOFC_BAD_PORT])
          else .ok (s, [.queueGetConfigReply x p])) := rfl
     rw [e]
     cases hp : knownPort s p with
-    | true => exact ⟨_, rfl, rfl, rfl, by simp [SpecReply, hp]⟩
-    | false => exact ⟨_, rfl, rfl, rfl, by simp [SpecReply, hp]; rfl⟩
+    | true => exact ⟨_, rfl, answerTo_single _ rfl rfl rfl, by simp [SpecReply, hp]⟩
+    | false => exact ⟨_, rfl, answerTo_single _ rfl rfl rfl, by simp [SpecReply, hp]; rfl⟩
   | statsRequest x req =>
     have e : rxMessage s (.statsRequest x req) = rxStats s x req := rfl
     rw [e]
     have hw : ∀ t, req = .other t → 6 ≤ t := by
       intro t ht; subst ht; exact hwf
-    obtain ⟨r, h1, h2, h3, h4⟩ := stats_spec s x req hw
-    exact ⟨r, h1, h2, h3, h4⟩
+    exact stats_spec s x req hw (fun _ => hfit)
   | _ => exact absurd hk (by simp [IsRequest])
+
+/-- why `one_reply` needs `FlowsFit`: an installed flow whose action list is 65440 bytes long (a 65512-byte flow_mod)
+cannot be reported — `ofp_flow_stats.pack` / `ofp_stats_reply.pack` raise `struct.error`, no reply is sent -/
+theorem oversize_entry_fails (s : SwitchState) (x : Nat) :
+    rxMessage { s with table := [{ mkey := none, priority := 1, cookie := 0, flags := 0, outs := [], actsLen := 65440 }] }
+      (.statsRequest x (.flow none 0 65535)) = .error .struct := by
+  have e : ∀ t, rxMessage t (.statsRequest x (.flow none 0 65535)) = rxStats t x (.flow none 0 65535) := fun _ => rfl
+  rw [e]; rfl
 
 /-! ## replies_carry_xid, never_fails -/
 
@@ -195,10 +265,19 @@ theorem correlated_of_ok {m : Msg} {r : Reply} (h : ReplyOK m.xid r) : Correlate
   · exact .inl h
   · exact .inr (.inl rfl)
 
-/-- **never_fails** and correlation in one statement: for every state and every decodable message of the 13
-controller-to-switch types whose action list is in the modelled vocabulary, handling succeeds, and every message written
-is asynchronous or carries the request's xid. -/
-theorem handled (s : SwitchState) (m : Msg) (hk : m.kind.isSome) (hwf : m.WF) (hsc : m.InScope) :
+/-- the full statement the property asks for (no internal failure for ANY decodable message of the 13 types).  It is NOT
+proved: the model does not cover the enqueue action and output:TABLE (they answer `Err.unmodelled`; the data path is
+C12's), and for a packet_out carrying data the code parses, rewrites and re-packs controller-chosen bytes
+(`ethernet.unpack`, the action handlers, `pack`) — whether that can raise is C12/C15's subject; the model treats the
+frame as opaque.  What is proved is `never_fails_partial`. -/
+def never_fails_full : Prop :=
+  ∀ (s : SwitchState) (m : Msg), m.kind.isSome → m.WF → FlowsFit s → ∃ s' out, rxMessage s m = .ok (s', out)
+
+/-- **handled_partial** (never_fails and correlation in one statement): for every state whose flows can be reported and
+every decodable message of the 13 controller-to-switch types whose action list is in the modelled vocabulary
+(`InScope`: no enqueue, no output:TABLE), handling succeeds, and every message written is asynchronous or carries the
+request's xid. -/
+theorem handled_partial (s : SwitchState) (m : Msg) (hk : m.kind.isSome) (hwf : m.WF) (hsc : m.InScope) (hfit : FlowsFit s) :
     ∃ s' out, rxMessage s m = .ok (s', out) ∧ ∀ r ∈ out, Correlated m r := by
   cases m with
   | hello x =>
@@ -219,11 +298,11 @@ theorem handled (s : SwitchState) (m : Msg) (hk : m.kind.isSome) (hwf : m.WF) (h
   | setConfig x f l => exact ⟨_, _, rfl, by simp⟩
   | barrierRequest x => exact ⟨_, _, rfl, by intro r hr; simp only [List.mem_singleton] at hr; subst hr; exact .inr (.inl rfl)⟩
   | queueGetConfigRequest x p =>
-    obtain ⟨r, h1, h2, _, _⟩ := one_reply s (.queueGetConfigRequest x p) trivial trivial
-    exact ⟨_, _, h1, by intro r' hr; simp only [List.mem_singleton] at hr; subst hr; exact .inr (.inl h2)⟩
+    obtain ⟨g, h1, ⟨_, h2, _⟩, _⟩ := one_reply s (.queueGetConfigRequest x p) trivial trivial hfit
+    exact ⟨_, _, h1, fun r hr => .inr (.inl (h2 r hr).1)⟩
   | statsRequest x req =>
-    obtain ⟨r, h1, h2, _, _⟩ := one_reply s (.statsRequest x req) trivial hwf
-    exact ⟨_, _, h1, by intro r' hr; simp only [List.mem_singleton] at hr; subst hr; exact .inr (.inl h2)⟩
+    obtain ⟨g, h1, ⟨_, h2, _⟩, _⟩ := one_reply s (.statsRequest x req) trivial hwf hfit
+    exact ⟨_, _, h1, fun r hr => .inr (.inl (h2 r hr).1)⟩
   | packetOut x b d acts =>
     have e : rxMessage s (.packetOut x b d acts) = rxPacketOut s x b d acts := rfl
     obtain ⟨s', o, h1, h2⟩ := rxPacketOut_ok s x b d acts hsc
@@ -243,17 +322,17 @@ theorem handled (s : SwitchState) (m : Msg) (hk : m.kind.isSome) (hwf : m.WF) (h
     exact ⟨_, _, e, fun r hr => correlated_of_ok (rxPortMod_out s x p hw c mk r hr)⟩
   | unhandled ty x => simp [Msg.kind] at hk
 
-/-- **never_fails**: no internal failure for any body. -/
-theorem never_fails (s : SwitchState) (m : Msg) (hk : m.kind.isSome) (hwf : m.WF) (hsc : m.InScope) :
+/-- **never_fails_partial**: no internal failure for any body in the modelled vocabulary (see `never_fails_full`). -/
+theorem never_fails_partial (s : SwitchState) (m : Msg) (hk : m.kind.isSome) (hwf : m.WF) (hsc : m.InScope) (hfit : FlowsFit s) :
     ∃ s' out, rxMessage s m = .ok (s', out) := by
-  obtain ⟨s', out, h, _⟩ := handled s m hk hwf hsc
+  obtain ⟨s', out, h, _⟩ := handled_partial s m hk hwf hsc hfit
   exact ⟨s', out, h⟩
 
 /-- every message written in answer to a request is asynchronous or carries that request's xid (the switch's own hello,
 sent with xid 0 on the first hello, is the one exception) -/
 theorem replies_carry_xid (s s' : SwitchState) (m : Msg) (out : List Reply) (hk : m.kind.isSome) (hwf : m.WF) (hsc : m.InScope)
-    (h : rxMessage s m = .ok (s', out)) : ∀ r ∈ out, Correlated m r := by
-  obtain ⟨s2, out2, h2, h3⟩ := handled s m hk hwf hsc
+    (hfit : FlowsFit s) (h : rxMessage s m = .ok (s', out)) : ∀ r ∈ out, Correlated m r := by
+  obtain ⟨s2, out2, h2, h3⟩ := handled_partial s m hk hwf hsc hfit
   rw [h] at h2
   cases h2
   exact h3
@@ -277,8 +356,9 @@ theorem silent_kinds (s : SwitchState) :
     (∀ x b d acts, actsInScope acts → (∀ a ∈ acts, (actionTable.lookup a.ty).isSome) →
         (d = true ∨ ∀ id, b = some id → bufferLive s id = true) →
         ∃ s' out, rxMessage s (.packetOut x b d acts) = .ok (s', out) ∧ ∀ r ∈ out, r.isAsync = true) ∧
-    (∀ x c mk p ck f i hd op b acts, c ≤ 4 → hasBit f OFPFF_EMERG = false → hasBit f OFPFF_CHECK_OVERLAP = false →
-        s.table.length < s.maxEntries → actsInScope acts → (∀ a ∈ acts, (actionTable.lookup a.ty).isSome) →
+    (∀ x c mk p ck f i hd op b acts, c ≤ 4 → hasBit f OFPFF_EMERG = false →
+        (hasBit f OFPFF_CHECK_OVERLAP = false ∨ checkOverlap p mk s.table = false) →
+        (c ≤ 2 → s.table.length < s.maxEntries) → actsInScope acts → (∀ a ∈ acts, (actionTable.lookup a.ty).isSome) →
         (∀ id, b = some id → bufferLive s id = true) →
         ∃ s' out, rxMessage s (.flowMod x c mk p ck f i hd op b acts) = .ok (s', out) ∧ ∀ r ∈ out, r.isAsync = true) := by
   refine ⟨fun _ _ _ => rfl, fun _ _ => rfl, ?_, ?_, ?_, ?_⟩
@@ -313,15 +393,19 @@ theorem silent_kinds (s : SwitchState) :
     have hfm : ∀ r ∈ (runFlowMod h s x c mk p ck f i hd op acts).2, r.isAsync = true := by
       have noerr : ∀ (st : SwitchState × List Reply),
           (st.2 = [] ∨ ∃ cc, st.2 = [.error x OFPET_FLOW_MOD_FAILED cc] ∧
-            (hasBit f OFPFF_EMERG = true ∨ hasBit f OFPFF_CHECK_OVERLAP = true ∨ s.maxEntries ≤ st.1.table.length)) →
+            (hasBit f OFPFF_EMERG = true ∨ (hasBit f OFPFF_CHECK_OVERLAP = true ∧ checkOverlap p mk s.table = true) ∨
+              s.maxEntries ≤ st.1.table.length)) →
+          s.table.length < s.maxEntries →
           st.1.table.length ≤ s.table.length + 1 → (st.2 ≠ [] → st.1.table.length ≤ s.table.length) →
           ∀ r ∈ st.2, r.isAsync = true := by
-        intro st hst _ hle r hr
+        intro st hst hlen _ hle r hr
         rcases hst with h0 | ⟨cc, h1, h2⟩
         · rw [h0] at hr; simp at hr
         · rcases h2 with h2 | h2 | h2
           · rw [he] at h2; cases h2
-          · rw [ho] at h2; cases h2
+          · rcases ho with ho | ho
+            · rw [ho] at h2; cases h2.1
+            · rw [ho] at h2; cases h2.2
           · have := hle (by rw [h1]; simp)
             omega
       have addLen : (flowModAdd s x c mk p ck f i hd acts).1.table.length ≤ s.table.length + 1 ∧
@@ -337,14 +421,16 @@ theorem silent_kinds (s : SwitchState) :
           | cons y r ih => unfold addEntry; split <;> simp [ih]
         unfold flowModAdd
         rw [he]
-        simp only [Bool.false_eq_true, if_false, ho, Bool.false_and]
+        have hov : (hasBit f OFPFF_CHECK_OVERLAP && checkOverlap p mk s.table) = false := by
+          rcases ho with ho | ho <;> simp [ho]
+        simp only [Bool.false_eq_true, if_false, hov]
         split
         · exact ⟨by simp only; omega, fun _ => tl⟩
         · exact ⟨by simp only [al]; omega, fun h => absurd rfl h⟩
       cases h with
-      | add => exact noerr _ (flowModAdd_out s x c mk p ck f i hd acts) addLen.1 addLen.2
+      | add => exact noerr _ (flowModAdd_out s x c mk p ck f i hd acts) (hlen (flowModTable_add_le hl (.inl rfl))) addLen.1 addLen.2
       | modify =>
-        refine noerr _ (flowModModify_out false s x c mk p ck f i hd acts) ?_ ?_
+        refine noerr _ (flowModModify_out false s x c mk p ck f i hd acts) (hlen (flowModTable_add_le hl (.inr (.inl rfl)))) ?_ ?_
         · simp only [runFlowMod]; unfold flowModModify; split
           · simp
           · exact addLen.1
@@ -352,7 +438,7 @@ theorem silent_kinds (s : SwitchState) :
           · simp
           · exact addLen.2
       | modifyStrict =>
-        refine noerr _ (flowModModify_out true s x c mk p ck f i hd acts) ?_ ?_
+        refine noerr _ (flowModModify_out true s x c mk p ck f i hd acts) (hlen (flowModTable_add_le hl (.inr (.inr rfl)))) ?_ ?_
         · simp only [runFlowMod]; unfold flowModModify; split
           · simp
           · exact addLen.1
@@ -466,28 +552,32 @@ theorem errors_spec (s : SwitchState) (x : Nat) :
     have e : rxMessage s (.portMod x p hw c mk) = .ok (rxPortMod s x p hw c mk) := rfl
     rw [e]; unfold rxPortMod; rw [h]; simp only [ne_eq, hne, not_false_eq_true, if_true]; rfl
   · intro p h
-    obtain ⟨r, h1, _, _, h4⟩ := one_reply s (.queueGetConfigRequest x p) trivial trivial
-    simp only [SpecReply, h, Bool.false_eq_true, if_false] at h4
-    rw [h1, h4]
+    have e : rxMessage s (.queueGetConfigRequest x p) =
+        (if (!knownPort s p) = true then .ok (s, [sendError x OFPET_QUEUE_OP_FAILED OFPQOFC_BAD_PORT])
+         else .ok (s, [.queueGetConfigReply x p])) := rfl
+    rw [e, h]; rfl
   · intro p q hp h
-    obtain ⟨r, h1, _, _, h4⟩ := one_reply s (.statsRequest x (.queue p q)) trivial trivial
-    simp only [SpecReply, SpecStats] at h4
+    obtain ⟨g, h1, _, h4⟩ := stats_spec s x (.queue p q) (fun _ h => by cases h) (fun ⟨_, _, _, h⟩ => by cases h)
+    simp only [SpecStats] at h4
     rw [if_pos ⟨hp, h⟩] at h4
-    rw [h1, h4]
+    have e : rxMessage s (.statsRequest x (.queue p q)) = rxStats s x (.queue p q) := rfl
+    rw [e, h1, h4]
   · intro p q hp hq
-    obtain ⟨r, h1, _, _, h4⟩ := one_reply s (.statsRequest x (.queue p q)) trivial trivial
-    simp only [SpecReply, SpecStats] at h4
+    obtain ⟨g, h1, _, h4⟩ := stats_spec s x (.queue p q) (fun _ h => by cases h) (fun ⟨_, _, _, h⟩ => by cases h)
+    simp only [SpecStats] at h4
+    have e : rxMessage s (.statsRequest x (.queue p q)) = rxStats s x (.queue p q) := rfl
     have hn : ¬ (p ≠ 65532 ∧ knownPort s p = false) := by
       rintro ⟨h1, h2⟩
       rcases hp with hp | hp
       · exact h1 hp
       · rw [hp] at h2; cases h2
     rw [if_neg hn, if_neg hq] at h4
-    rw [h1, h4]
+    rw [e, h1, h4]
   · intro t ht
-    obtain ⟨r, h1, _, _, h4⟩ := one_reply s (.statsRequest x (.other t)) trivial ht
-    simp only [SpecReply, SpecStats] at h4
-    rw [h1, h4]
+    obtain ⟨g, h1, _, h4⟩ := stats_spec s x (.other t) (fun t' h => by cases h; exact ht) (fun ⟨_, _, _, h⟩ => by cases h)
+    simp only [SpecStats] at h4
+    have e : rxMessage s (.statsRequest x (.other t)) = rxStats s x (.other t) := rfl
+    rw [e, h1, h4]
   · intro c mk p ck f i hd op b acts hc
     have e : rxMessage s (.flowMod x c mk p ck f i hd op b acts) = rxFlowMod s x c mk p ck f i hd op b acts := rfl
     rw [e]; unfold rxFlowMod; rw [flowModTable_none hc]; rfl
@@ -535,20 +625,25 @@ theorem errors_spec (s : SwitchState) (x : Nat) :
 /-- a state with one port, one stored flow and no buffered packet -/
 def demoState : SwitchState :=
   { dpid := 1, maxBuffers := 2, maxEntries := 3, caps := 7, actionBits := 4095, missSendLen := 128, configFlags := 0,
-    hasSentHello := true, ports := [{ no := 1, hw := 0x020000010001, config := 2, state := 0 }], portStats := [1, 9],
+    hasSentHello := true, ports := [{ no := 1, hw := 0x020000010001, config := 2, state := 0 }], portStats := [{ no := 1 }, { no := 9, txPackets := 4, txBytes := 240 }],
     table := [{ mkey := some 1, priority := 5, cookie := 77, flags := 1, outs := [2] }], lookupCount := 0, matchedCount := 0,
     buffers := [] }
 
 /-! ## theorems over whole request histories -/
 
+/-- the flow a flow_mod installs can be reported in a statistics reply (its action list is at most 65435 bytes) -/
+def MsgFits : Msg → Prop
+  | .flowMod _ _ _ _ _ _ _ _ _ _ acts => 88 + actsLenOf acts ≤ partLimit
+  | _ => True
+
 /-- a history of decodable messages of the 13 controller-to-switch types with action lists in the modelled vocabulary -/
-def Admissible (ms : List Msg) : Prop := ∀ m ∈ ms, m.kind.isSome ∧ m.WF ∧ m.InScope
+def Admissible (ms : List Msg) : Prop := ∀ m ∈ ms, m.kind.isSome ∧ m.WF ∧ m.InScope ∧ MsgFits m
 
 /-- what is written for one message of a history: only asynchronous notifications and messages carrying its xid; and
-if it is a request (echo, features, get-config, barrier, statistics, queue-get-config) exactly one message, a
-non-asynchronous one with its xid -/
+if it is a request (echo, features, get-config, barrier, statistics, queue-get-config) one complete answer: at least
+one message, none asynchronous, all with its xid, REPLY_MORE on all parts but the last -/
 def Answered (m : Msg) (g : List Reply) : Prop :=
-  (∀ r ∈ g, Correlated m r) ∧ (IsRequest m → ∃ r, g = [r] ∧ r.xid? = some m.xid ∧ r.isAsync = false)
+  (∀ r ∈ g, Correlated m r) ∧ (IsRequest m → AnswerTo m.xid g)
 
 /-- the groups written for a history correspond one-to-one, in order, to its messages, each being `Answered` -/
 inductive AllAnswered : List Msg → List (List Reply) → Prop
@@ -568,35 +663,93 @@ theorem allAnswered_index {ms : List Msg} {gs : List (List Reply)} (h : AllAnswe
     | zero => exact ha
     | succ j => exact ih.2 j (by simpa using h1) (by simpa using h2)
 
-/-- **history_answered**: for every state and every admissible request history of any length, handling never fails and
-the groups written correspond one-to-one and in order to the messages: every request of the history is answered exactly
-once with its own xid, whatever came before it; nothing else but asynchronous notifications and errors with the
-offending message's xid is written. -/
-theorem history_answered (s : SwitchState) (ms : List Msg) (h : Admissible ms) :
-    ∃ s' gs, run s ms = .ok (s', gs) ∧ AllAnswered ms gs := by
+/-- only a flow_mod changes the flow table -/
+theorem step_table {s s' : SwitchState} {m : Msg} {o : List Reply} (h : rxMessage s m = .ok (s', o)) :
+    s'.table = s.table ∨ ∃ x c mk p ck f i hd op b acts, m = .flowMod x c mk p ck f i hd op b acts := by
+  have same : ∀ {o'}, (Except.ok (s, o') : Res) = .ok (s', o) → s'.table = s.table := by
+    intro o' e; injection e with e; injection e with e1 _; subst e1; rfl
+  cases m with
+  | hello x =>
+    have e : rxMessage s (.hello x) = .ok (rxHello s) := rfl
+    rw [e] at h; injection h with h
+    have := rxHello_table s
+    rw [h] at this; exact .inl this
+  | echoRequest x b => exact .inl (same (o' := [.echoReply x b]) h)
+  | echoReply x b => exact .inl (same (o' := []) h)
+  | vendor x v => exact .inl (same (o' := [sendError x Generated.SwitchDispatch.OFPET_BAD_REQUEST Generated.SwitchDispatch.OFPBRC_BAD_VENDOR]) h)
+  | featuresRequest x => exact .inl (same (o' := [.featuresReply x s.dpid s.maxBuffers 1 s.caps s.actionBits s.ports]) h)
+  | getConfigRequest x => exact .inl (same (o' := [.getConfigReply x s.configFlags s.missSendLen]) h)
+  | barrierRequest x => exact .inl (same (o' := [.barrierReply x]) h)
+  | setConfig x f l =>
+    have e : rxMessage s (.setConfig x f l) = .ok ({ s with missSendLen := l, configFlags := f }, []) := rfl
+    rw [e] at h; injection h with h; injection h with h1 _; subst h1; exact .inl rfl
+  | packetOut x b d acts =>
+    have e : rxMessage s (.packetOut x b d acts) = rxPacketOut s x b d acts := rfl
+    rw [e] at h; exact .inl (rxPacketOut_table h)
+  | flowMod x c mk p ck f i hd op b acts => exact .inr ⟨x, c, mk, p, ck, f, i, hd, op, b, acts, rfl⟩
+  | portMod x p hw c mk =>
+    have e : rxMessage s (.portMod x p hw c mk) = .ok (rxPortMod s x p hw c mk) := rfl
+    rw [e] at h; injection h with h
+    have := rxPortMod_table s x p hw c mk
+    rw [h] at this; exact .inl this
+  | statsRequest x req =>
+    have e : rxMessage s (.statsRequest x req) = rxStats s x req := rfl
+    rw [e] at h; rw [rxStats_state h]; exact .inl rfl
+  | queueGetConfigRequest x p =>
+    have e : rxMessage s (.queueGetConfigRequest x p) =
+        (if (!knownPort s p) = true then .ok (s, [sendError x Generated.SwitchDispatch.OFPET_QUEUE_OP_FAILED Generated.SwitchDispatch.OFPQOFC_BAD_PORT])
+         else .ok (s, [.queueGetConfigReply x p])) := rfl
+    rw [e] at h
+    split at h
+    · exact .inl (same h)
+    · exact .inl (same h)
+  | unhandled ty x =>
+    exfalso
+    unfold rxMessage at h
+    cases hl : rxTable.lookup (Msg.unhandled ty x).ofpType with
+    | none => rw [hl] at h; cases h
+    | some k => rw [hl] at h; cases k <;> cases h
+
+/-- every reachable table can be reported: the invariant `FlowsFit` survives every message whose flow fits -/
+theorem step_fit {s s' : SwitchState} {m : Msg} {o : List Reply} (h : rxMessage s m = .ok (s', o)) (hm : MsgFits m)
+    (hs : FlowsFit s) : FlowsFit s' := by
+  rcases step_table h with ht | ⟨x, c, mk, p, ck, f, i, hd, op, b, acts, rfl⟩
+  · intro e he; rw [ht] at he; exact hs e he
+  · have e : rxMessage s (.flowMod x c mk p ck f i hd op b acts) = rxFlowMod s x c mk p ck f i hd op b acts := rfl
+    rw [e] at h
+    exact rxFlowMod_fit hm hs h
+
+/-- **history_answered_partial**: for every state (whose flows can be reported) and every admissible request history
+of any length, handling never fails and the groups written correspond one-to-one and in order to the messages: every
+request of the history gets exactly one complete answer with its own xid, whatever came before it; nothing else but
+asynchronous notifications and errors with the offending message's xid is written.  (`_partial`: `Admissible` confines
+action lists to the modelled vocabulary, see `never_fails_full`.) -/
+theorem history_answered_partial (s : SwitchState) (ms : List Msg) (h : Admissible ms) (hfit : FlowsFit s) :
+    ∃ s' gs, run s ms = .ok (s', gs) ∧ AllAnswered ms gs ∧ FlowsFit s' := by
   induction ms generalizing s with
-  | nil => exact ⟨s, [], rfl, .nil⟩
+  | nil => exact ⟨s, [], rfl, .nil, hfit⟩
   | cons m ms ih =>
-    obtain ⟨hk, hwf, hsc⟩ := h m List.mem_cons_self
-    obtain ⟨s1, o, e1, c1⟩ := handled s m hk hwf hsc
-    obtain ⟨s2, gs, e2, f2⟩ := ih s1 (fun m' hm' => h m' (List.mem_cons_of_mem _ hm'))
-    refine ⟨s2, o :: gs, ?_, .cons ⟨c1, ?_⟩ f2⟩
+    obtain ⟨hk, hwf, hsc, hmf⟩ := h m List.mem_cons_self
+    obtain ⟨s1, o, e1, c1⟩ := handled_partial s m hk hwf hsc hfit
+    obtain ⟨s2, gs, e2, f2, fit2⟩ := ih s1 (fun m' hm' => h m' (List.mem_cons_of_mem _ hm')) (step_fit e1 hmf hfit)
+    refine ⟨s2, o :: gs, ?_, .cons ⟨c1, ?_⟩ f2, fit2⟩
     · simp only [run, e1, e2]
     · intro hr
-      obtain ⟨r, h1, h2, h3, _⟩ := one_reply s m hr hwf
+      obtain ⟨g, h1, h2, _⟩ := one_reply s m hr hwf hfit
       rw [h1] at e1
       injection e1 with e1; injection e1 with _ e1
-      exact ⟨r, e1.symm, h2, h3⟩
+      rw [← e1]; exact h2
 
 /-- **barrier in a history**: wherever a barrier request stands in an admissible history, its reply is written after the
 complete answers to everything before it (each earlier request answered once, with its xid) and before anything written
 for what follows. -/
-theorem history_barrier (s : SwitchState) (before after : List Msg) (x : Nat) (hb : Admissible before) (ha : Admissible after) :
+theorem history_barrier (s : SwitchState) (before after : List Msg) (x : Nat) (hb : Admissible before) (ha : Admissible after)
+    (hfit : FlowsFit s) :
     ∃ s' g1 g2, run s (before ++ .barrierRequest x :: after) = .ok (s', g1 ++ [.barrierReply x] :: g2) ∧
       AllAnswered before g1 ∧ AllAnswered after g2 ∧
       stream (g1 ++ [.barrierReply x] :: g2) = stream g1 ++ .barrierReply x :: stream g2 := by
-  obtain ⟨s1, g1, e1, f1⟩ := history_answered s before hb
-  obtain ⟨s2, g2, e2, f2⟩ := history_answered s1 after ha
+  obtain ⟨s1, g1, e1, f1, fit1⟩ := history_answered_partial s before hb hfit
+  obtain ⟨s2, g2, e2, f2, _⟩ := history_answered_partial s1 after ha fit1
   refine ⟨s2, g1, g2, ?_, f1, f2, by simp [stream]⟩
   rw [barrier_after s s1 before after g1 x e1, e2]
 
@@ -789,7 +942,7 @@ theorem config_after_history (s s' : SwitchState) (ms : List Msg) (gs : List (Li
 
 example : IsRequest (.statsRequest 5 (.queue 9 3)) ∧ Msg.WF (.statsRequest 5 (.queue 9 3)) := ⟨trivial, trivial⟩
 example : IsRequest (.statsRequest 5 (.other 0xffff)) ∧ Msg.WF (.statsRequest 5 (.other 0xffff)) := ⟨trivial, by show (6 : Nat) ≤ 65535; decide⟩
-example : (Msg.flowMod 1 0 (some 1) 5 9 1 0 0 65535 none [⟨0, 2⟩, ⟨1, 7⟩]).InScope := by
+example : (Msg.flowMod 1 0 (some 1) 5 9 1 0 0 65535 none [⟨0, 2, 8⟩, ⟨1, 7, 8⟩]).InScope := by
   intro a ha; simp at ha; rcases ha with rfl | rfl <;> decide
 /-- hypotheses of the flow-mod part of `silent_kinds` hold in `demoState` -/
 example : demoState.table.length < demoState.maxEntries ∧ hasBit 1 Generated.SwitchDispatch.OFPFF_EMERG = false ∧
@@ -803,8 +956,8 @@ example : demoState.ports.find? (·.no == 9) = none ∧ knownPort demoState 9 = 
 example : bufferLive { demoState with buffers := [true, false] } 1 = true ∧
     ({ demoState with buffers := [true, false] } : SwitchState).buffers[2 - 1]? = some false := by decide
 /-- the hypotheses of the history theorems hold for a concrete mixed history and state -/
-example : Admissible [.hello 1, .echoRequest 2 [1, 2, 3], .flowMod 3 0 (some 1) 5 9 1 0 0 65535 (some 4) [⟨0, 65533⟩],
-    .statsRequest 4 (.other 65535), .portMod 5 1 7 1 1, .barrierRequest 6, .packetOut 7 (some 1) false [⟨65535, 0⟩]] ∧
+example : Admissible [.hello 1, .echoRequest 2 [1, 2, 3], .flowMod 3 0 (some 1) 5 9 1 0 0 65535 (some 4) [⟨0, 65533, 8⟩],
+    .statsRequest 4 (.other 65535), .portMod 5 1 7 1 1, .barrierRequest 6, .packetOut 7 (some 1) false [⟨65535, 0, 16⟩]] ∧
     PortsUnique demoState := by
   refine ⟨?_, by show ([1] : List Nat).Nodup; decide⟩
   intro m hm
@@ -821,10 +974,10 @@ example : Admissible [.hello 1, .echoRequest 2 [1, 2, 3], .flowMod 3 0 (some 1) 
     intro a ha; simp only [List.mem_singleton] at ha; subst ha; decide
 /-- a whole sequence: add a flow, read the table, barrier, delete with notification, read again -/
 example : (run demoState
-    [.flowMod 1 0 none 9 42 1 0 0 65535 none [⟨0, 3⟩], .statsRequest 2 .table, .barrierRequest 3,
+    [.flowMod 1 0 none 9 42 1 0 0 65535 none [⟨0, 3, 8⟩], .statsRequest 2 .table, .barrierRequest 3,
      .flowMod 4 3 none 0 0 0 0 0 65535 none [], .statsRequest 5 (.aggregate none 0 65535), .portMod 6 1 0x020000010001 1 1,
-     .packetOut 7 none true [⟨0, 65533⟩, ⟨65535, 0⟩], .hello 8, .queueGetConfigRequest 9 4,
-     .packetOut 10 (some 1) false [⟨0, 2⟩], .packetOut 11 (some 1) false [], .packetOut 12 (some 5) false []]).map (·.2) =
+     .packetOut 7 none true [⟨0, 65533, 8⟩, ⟨65535, 0, 16⟩], .hello 8, .queueGetConfigRequest 9 4,
+     .packetOut 10 (some 1) false [⟨0, 2, 8⟩], .packetOut 11 (some 1) false [], .packetOut 12 (some 5) false []]).map (·.2) =
     .ok [[], [.statsReply 2 3 (.table 3 2 0 0)], [.barrierReply 3],
          [.flowRemoved { mkey := none, priority := 9, cookie := 42, flags := 1, outs := [3] } 2,
           .flowRemoved { mkey := some 1, priority := 5, cookie := 77, flags := 1, outs := [2] } 2],
